@@ -543,7 +543,7 @@ c14_bmi2a!(c14_bmi2a_sel1_scalar, quick, 70, crate::c14_accel::cpu_none, bmi2a_s
 c14_bmi2a!(c14_bmi2a_sel1_bmi2, quick, 70, crate::c14_accel::cpu_bmi2, bmi2a_select1);
 c14_bmi2a!(c14_bmi2a_sel0_scalar, thorough, 70, crate::c14_accel::cpu_none, bmi2a_select0);
 c14_bmi2a!(c14_bmi2a_sel0_bmi2, quick, 70, crate::c14_accel::cpu_bmi2, bmi2a_select0);
-c14_bmi2a!(c14_bmi2a_selvar_scalar, thorough, 70, crate::c14_accel::cpu_none, bmi2a_select_variants);
+c14_bmi2a!(c14_bmi2a_selvar_scalar, probe, 70, crate::c14_accel::cpu_none, bmi2a_select_variants);
 c14_bmi2a!(c14_bmi2a_selvar_bmi2, thorough, 70, crate::c14_accel::cpu_bmi2, bmi2a_select_variants);
 c14_bmi2a!(c14_bmi2a_pdep_any_scalar, quick, 70, crate::c14_accel::cpu_none, bmi2a_pdep_any);
 c14_bmi2a!(c14_bmi2a_pdep_byte_bmi2, quick, 70, crate::c14_accel::cpu_bmi2, bmi2a_pdep_byte);
@@ -878,7 +878,7 @@ macro_rules! c14_hex_str {
     };
 }
 c14_hex_str!(c14_hex_str_n1, quick, 8, 1, 2);
-c14_hex_str!(c14_hex_str_n2, thorough, 10, 2, 4);
+c14_hex_str!(c14_hex_str_n2, probe, 10, 2, 4);
 macro_rules! c14_hex_dec {
     ($name:ident, $tier:ident, $unwind:literal, $m:literal, $mh:literal) => {
         zv_harness! {
@@ -1165,16 +1165,16 @@ macro_rules! c14_b64 {
     };
 }
 c14_b64!(c14_b64_io_n0, quick, 12, b64_io::<0>);
-c14_b64!(c14_b64_io_n1, thorough, 12, b64_io::<1>);
-c14_b64!(c14_b64_io_n2, thorough, 12, b64_io::<2>);
-c14_b64!(c14_b64_io_n3, thorough, 12, b64_io::<3>);
-c14_b64!(c14_b64_io_n4, thorough, 12, b64_io::<4>);
-c14_b64!(c14_b64_sys_n2, thorough, 12, b64_sys::<2>);
-c14_b64!(c14_b64_sys_n4, thorough, 12, b64_sys::<4>);
-c14_b64!(c14_b64_buf_n3, thorough, 12, b64_buf::<3>);
-c14_b64!(c14_b64_urlsafe_nopad_n2, thorough, 12, b64_urlsafe_nopad::<2>);
-c14_b64!(c14_b64_urlsafe_pad_n1, thorough, 12, b64_urlsafe_pad::<1>);
-c14_b64!(c14_b64_std_nopad_n4, thorough, 12, b64_std_nopad::<4>);
+c14_b64!(c14_b64_io_n1, probe, 12, b64_io::<1>);
+c14_b64!(c14_b64_io_n2, probe, 12, b64_io::<2>);
+c14_b64!(c14_b64_io_n3, probe, 12, b64_io::<3>);
+c14_b64!(c14_b64_io_n4, probe, 12, b64_io::<4>);
+c14_b64!(c14_b64_sys_n2, probe, 12, b64_sys::<2>);
+c14_b64!(c14_b64_sys_n4, probe, 12, b64_sys::<4>);
+c14_b64!(c14_b64_buf_n3, probe, 12, b64_buf::<3>);
+c14_b64!(c14_b64_urlsafe_nopad_n2, probe, 12, b64_urlsafe_nopad::<2>);
+c14_b64!(c14_b64_urlsafe_pad_n1, probe, 12, b64_urlsafe_pad::<1>);
+c14_b64!(c14_b64_std_nopad_n4, probe, 12, b64_std_nopad::<4>);
 c14_b64!(c14_b64_decode_text4, quick, 12, b64_decode_text4);
 
 // ------------------------------------------------------------------------------------------ io::simd_validation::utf8
@@ -1386,7 +1386,7 @@ macro_rules! c14_memops {
 c14_memops!(c14_memops_anytier_a0_b1, quick, 8, 0, 1, 0, 2);
 c14_memops!(c14_memops_anytier_a3_b3, quick, 8, 3, 3, 1, 5);
 c14_memops!(c14_memops_anytier_a2_b4, quick, 8, 2, 4, 3, 6);
-c14_memops!(c14_memops_anytier_a9_b9, thorough, 14, 9, 9, 3, 16);
+c14_memops!(c14_memops_anytier_a9_b9, thorough, 18, 9, 9, 3, 16);
 
 // --- thorough: the vector kernels proper (stdarch bodies of loadu/storeu/set1/cmpeq/movemask executed by Kani, if it can)
 macro_rules! c14_memops_vec {
@@ -1406,9 +1406,9 @@ macro_rules! c14_memops_vec {
         }
     };
 }
-c14_memops_vec!(c14_memops_sse2_a17_b17, thorough, 24, crate::c14_accel::cpu_sse42, 17, 17, 3, 24);
+c14_memops_vec!(c14_memops_sse2_a17_b17, thorough, 27, crate::c14_accel::cpu_sse42, 17, 17, 3, 24);
 c14_memops_vec!(c14_memops_sse2_a16_b17, thorough, 24, crate::c14_accel::cpu_sse42, 16, 17, 1, 20);
-c14_memops_vec!(c14_memops_avx2_a33_b33, thorough, 40, crate::c14_accel::cpu_avx2, 33, 33, 5, 40);
+c14_memops_vec!(c14_memops_avx2_a33_b33, thorough, 43, crate::c14_accel::cpu_avx2, 33, 33, 5, 40);
 
 fn utf8_fixed_tier<const N: usize>() {
     let d: [u8; N] = vany();
@@ -1442,8 +1442,8 @@ macro_rules! c14_utf8_vec {
         }
     };
 }
-c14_utf8_vec!(c14_utf8_sse2_n17, thorough, 24, crate::c14_accel::cpu_sse41, 17);
-c14_utf8_vec!(c14_utf8_sse2_n18, thorough, 24, crate::c14_accel::cpu_sse41, 18);
+c14_utf8_vec!(c14_utf8_sse2_n17, probe, 24, crate::c14_accel::cpu_sse41, 17);
+c14_utf8_vec!(c14_utf8_sse2_n18, probe, 24, crate::c14_accel::cpu_sse41, 18);
 
 // ------------------------------------------------------------------------------------------ string::bmi2_string_ops (UTF-8 counting / extraction, BMI2 path for inputs >= 8 bytes)
 
@@ -1526,5 +1526,5 @@ macro_rules! c14_utf8x {
         }
     };
 }
-c14_utf8x!(c14_utf8x_abc2def_scalar, thorough, 12, crate::c14_accel::cpu_none);
-c14_utf8x!(c14_utf8x_abc2def_bmi2, thorough, 12, crate::c14_accel::cpu_bmi2);
+c14_utf8x!(c14_utf8x_abc2def_scalar, probe, 12, crate::c14_accel::cpu_none);
+c14_utf8x!(c14_utf8x_abc2def_bmi2, probe, 12, crate::c14_accel::cpu_bmi2);
